@@ -11,6 +11,7 @@
 (*     "equal"     identical, byte for byte                                *)
 (*     "trimmed"   identical to the input with surrounding whitespace      *)
 (*                 removed (and different from the input)                  *)
+(*     "ignored" (set) the item shows what it had before                   *)
 (*     "different" anything else     "rejected" the command refused it     *)
 (* Which relation is acceptable where is decided here.                     *)
 (***************************************************************************)
@@ -38,13 +39,16 @@ PathExists(m, c, f) ==
 \* flag (flags and --body-stdin modes) or by `set`
 MayTrim(m, c, f) == f = "title" /\ (m \in {"flags", "bodystdin"} \/ c = "set")
 
+\* "pieces": what is read from stdin arrives in several writes with pauses between
+\* them (a producer that prints as it goes) instead of one
 Cases ==
-  {[mode |-> m, cmd |-> c, field |-> f, class |-> k, follow |-> w] :
-      m \in Modes, c \in Cmds, f \in Fields, k \in Classes, w \in Follow}
+  {[mode |-> m, cmd |-> c, field |-> f, class |-> k, follow |-> w, pieces |-> p] :
+      m \in Modes, c \in Cmds, f \in Fields, k \in Classes, w \in Follow, p \in BOOLEAN}
 \* "mentions_id": ordinary text that happens to contain the id of a pruned item and of a live one
 \* "near_limit": bodies whose size is swept across the largest line the log format
 \* admits (whatever that is: the driver finds it by bisection)
 RealCases == {x \in Cases : /\ PathExists(x.mode, x.cmd, x.field)
+                            /\ (x.pieces => x.mode # "flags" /\ x.follow = "none" /\ x.class # "near_limit")
                             /\ (x.class = "near_limit" => x.field = "body" /\ x.follow \in {"none", "compact"})}
 Limit == {"over_limit", "near_limit"}
 
@@ -52,6 +56,8 @@ Limit == {"over_limit", "near_limit"}
 C17_roundtrip(r) ==
   LET ok == IF MayTrim(r.case.mode, r.case.cmd, r.case.field) THEN {"equal", "trimmed"} ELSE {"equal"}
   IN r.rel \in ok \/ (r.case.class \in (Limit \cup {"unicode_blank"}) /\ r.rel = "rejected")
+               \/ (r.case.class = "unicode_blank" /\ r.rel = "ignored" /\ r.case.cmd = "set" /\ r.case.field = "title"
+                     /\ r.case.mode \in {"flags", "bodystdin"})
 C17_stays(r) == (r.rel \in {"equal", "trimmed"} /\ r.case.class # "over_limit") => r.rel_after = r.rel
 \* valid text is not refused (long inputs included): every class here is valid
 \* Unicode and not blank
@@ -61,7 +67,13 @@ C17_stays(r) == (r.rel \in {"equal", "trimmed"} /\ r.case.class # "over_limit") 
 C17_accepted(r) == r.case.class \notin (Limit \cup {"unicode_blank"}) => r.rel # "rejected"
 \* text that is nothing but (Unicode) whitespace may be refused; if it is taken it is
 \* stored like any other text, never replaced by something else
-C17_blank(r) == r.case.class = "unicode_blank" => r.rel \in {"rejected", "equal", "trimmed"}
+\* (a title given by FLAG that trims to nothing is a flag that was not given: in the
+\* flag modes "" cannot be told from absent - ErgoCmds!Fld -, so a `set` that carries
+\* another field goes ahead and leaves the title as it was)
+C17_blank(r) == r.case.class = "unicode_blank" =>
+                  r.rel \in {"rejected", "equal", "trimmed"}
+                            \cup (IF r.case.cmd = "set" /\ r.case.field = "title" /\ r.case.mode \in {"flags", "bodystdin"}
+                                  THEN {"ignored"} ELSE {})
 C17_overlimit(r) == r.case.class \in Limit =>
                       /\ r.store_readable
                       /\ (r.rel = "rejected" => r.store_unchanged)
